@@ -482,6 +482,51 @@ def campaign_family(ck: Check, c17, quick: bool) -> None:
     camp.wall_s = time.time() - t0
 
 
+def minimal_chain_doc(rng: Rng, c17) -> dict:
+    """the smallest member of the family: `interface A implements B`, `interface B`, `type M implements A & B`
+    (A < B: M is kept back), `type P`, `union U = M | P` — five definitions, so that EVERY order of the
+    definitions in the SDL text can be tried"""
+    a, b = sorted(rng.sample(NAME_POOL, 2))
+    m, p_, u = rng.sample([n for n in NAME_POOL if n not in (a, b)], 3)
+    fb = ("f_b1", ("n", "Int"), None)
+    fa = ("f_a2", ("l", ("n", u)), None)
+    doc = {
+        b: {"kind": "interface", "interfaces": [], "fields": [fb], "desc": None},
+        a: {"kind": "interface", "interfaces": [b], "fields": [fb, fa], "desc": None},
+        m: {"kind": "type", "interfaces": rng.shuffle([a, b]), "fields": [fb, fa, ("f_m3", ("n", p_), None)], "desc": None},
+        p_: {"kind": "type", "interfaces": [], "fields": [("f_p4", ("n", m), None)], "desc": None},
+        u: {"kind": "union", "members": rng.shuffle([m, p_]), "desc": None},
+    }
+    doc["__root__"] = {"kind": "schema", "query": p_}
+    doc["__order__"] = {"kind": "order", "names": [b, a, m, p_, u]}
+    return doc
+
+
+def campaign_all_orders(ck: Check, c17, quick: bool) -> None:
+    """every order of the definitions of the minimal document (thorough: all 120; quick: 30 of them),
+    with and without each spelling option"""
+    from .. import e2e
+
+    camp = ck.campaign("e2e GraphQL shape oracle over every order of the definitions of the minimal chain document (members before / after the union, interfaces before / after what implements them)")
+    t0 = time.time()
+    rng = ck.rng.fork("all_orders")
+    doc = minimal_chain_doc(rng, c17)
+    names = doc["__order__"]["names"]
+    perms = list(itertools.permutations(names))
+    if quick:
+        perms = rng.sample(perms, 30)
+    vectors = flag_vectors(False)
+    for i, perm in enumerate(perms):
+        sdl = c17.render_doc({**doc, "__order__": {"kind": "order", "names": list(perm)}})
+        kind = e2e.EXECUTABLE_KINDS[i % len(e2e.EXECUTABLE_KINDS)]
+        for flags in ({}, {"use_union_operator": True}, vectors[1 + (i // 4) % (len(vectors) - 1)]):
+            union_pos = perm.index(names[4])
+            camp.hit("union_" + ("first" if union_pos == 0 else "last" if union_pos == 4 else "between"))
+            camp.distinct.add((sdl, kind, tuple(sorted(flags))))
+            c17.oracle_case(ck, camp, sdl, kind, dict(flags), {}, rng.next() & 0xFFFFFFFF)
+    camp.wall_s = time.time() - t0
+
+
 # ------------------------------------------------------------------ targeted search
 def search_order(ck: Check, c17) -> None:
     """An obligation of the ordering half no longer checks (or the alias / order correspondence broke):
